@@ -1,8 +1,8 @@
 #!/verif/.venv/bin/python
 # Replay of a solver counterexample against the unmodified code (no shims).
-# property=C09 kernel=atomic label=atomic:declare_too_many#0
+# property=C09 kernel=atomic label=atomic:declare_bad_target#0
 import sys
 sys.path[:0] = ['/repo' + "/pulser-core", '/repo' + "/pulser-simulation", "/verif"]
 from symx.replay import replay
-sys.exit(replay(check='checks.c09', kernel='atomic', shape={'device': 'virt_maxseq', 'prefix': 'p0', 'ops': ['declare_too_many']},
-                assignment={}, label='atomic:declare_too_many#0'))
+sys.exit(replay(check='checks.c09', kernel='atomic', shape={'device': 'virt_maxseq', 'prefix': 'p0', 'ops': ['declare_bad_target']},
+                assignment={}, label='atomic:declare_bad_target#0'))
